@@ -623,6 +623,61 @@ def bystander_runs(chk, stats, net, clock_mod, jc_mod, settings_mod, ScriptJob):
     injection.bind(clock_mod.Clock).to(i_lib.Clock)
 
 
+def named_stops(chk, stats, net, clock_mod, jc_mod, settings_mod, ScriptJob):
+    """`stop_job(name)` reaches the job of that name wherever it runs — in the queue or in the
+    background — whatever else is running meanwhile, and only that job.  Real threads and clock."""
+    import time as _time
+    from bardolph.lib import injection, i_lib
+    clock_mod.configure()
+    settings_mod.Settings._the_config['sleep_time'] = 0.01
+    endless = 'repeat begin on all time 0.02 wait end'
+    # (jobs started as (name, how)), the name stopped, the names that must keep running
+    cases = [([('bg', 'spawn'), ('A', 'add')], 'bg', ['A']),
+             ([('bg', 'spawn'), ('A', 'add')], 'A', ['bg']),
+             ([('bg1', 'spawn'), ('bg2', 'spawn')], 'bg2', ['bg1']),
+             ([('bg1', 'spawn'), ('bg2', 'spawn'), ('A', 'add')], 'bg1', ['bg2', 'A']),
+             ([('A', 'add'), ('B', 'add'), ('bg', 'spawn')], 'bg', ['A']),
+             ([('bg', 'spawn')], 'bg', [])]
+    for jobs, target, others in cases:
+        jc = jc_mod.JobControl()
+        made = []
+        for name, how in jobs:
+            job = ScriptJob.from_string(endless)
+            made.append(job)
+            (jc.spawn_job if how == 'spawn' else jc.add_job)(job, name)
+        _time.sleep(0.1)
+        started = {name: jc.is_running(name) for name, _h in jobs}
+        result = jc.stop_job(target)
+        deadline = _time.monotonic() + 2
+        while jc.is_running(target) and _time.monotonic() < deadline:
+            _time.sleep(0.01)
+        lost = jc.is_running(target)
+        _time.sleep(0.05)
+        hit = [n for n in others if not jc.is_running(n)]
+        jc.clear_queue()
+        jc.stop_current()
+        jc.stop_background()
+        deadline = _time.monotonic() + 3
+        while (jc.has_jobs() or any(jc.is_running(n) for n, _h in jobs)) and _time.monotonic() < deadline:
+            _time.sleep(0.01)
+        for job in made:          # whatever the job control did: no thread may outlive the case
+            job.request_stop()
+        chk.count()
+        stats['named_stops'] = stats.get('named_stops', 0) + 1
+        replay = {'jobs': jobs, 'stopped': target, 'script': endless, 'running_before': started,
+                  'how': 'real threads and clock; see harness/c09.py named_stops'}
+        if lost or not result:
+            chk.violation('stop-by-name-lost',
+                          'stop_job({!r}) returned {!r} and the job {} while {} ran'.format(
+                              target, result, 'kept running' if lost else 'ended', [n for n, _h in jobs]), replay)
+        elif hit:
+            chk.violation('stop-disturbs-another-run',
+                          'stop_job({!r}) also ended {}'.format(target, hit), replay)
+        else:
+            chk.nontrivial_case(('named-stop', str(jobs), target))
+    injection.bind(clock_mod.Clock).to(i_lib.Clock)
+
+
 # ---------------------------------------------------------------- main
 def main():
     chk = Check('C09')
@@ -757,6 +812,7 @@ def main():
     stats['model_disagreements'] = n_dis
 
     bystander_runs(chk, stats, net, clock_mod, jc_mod, settings_mod, ScriptJob)
+    named_stops(chk, stats, net, clock_mod, jc_mod, settings_mod, ScriptJob)
     chk.coverage['distribution'] = stats
     chk.coverage['rule'] = (
         'one run = one script shape x one kind of stop request x one schedule through the real '
